@@ -881,6 +881,13 @@ class Check(PropertyCheck):
                 # typed coordinates: pixel-like magnitudes
                 d = G.gen_simple(rng, kind=kind, scale=rng.choice([3.0, 10.0, 40.0]), center_scale=rng.choice([0, 10, 100, 1e4]),
                                  include=d.get('include'))
+            if kind in ('ellipse', 'rectangle') and rng.random() < 0.25:
+                d['h'] = d['w']                                     # circular ellipse / square, any angle
+            elif kind in ('ellipse_annulus', 'rectangle_annulus') and rng.random() < 0.25:
+                d['h1'] = d['w1']; d['h2'] = d['w2']                # circular / square components
+            elif kind == 'polygon' and rng.random() < 0.2:
+                d['v'] = d['v'] + [list(d['v'][0])] if rng.random() < 0.6 else d['v'][:2] + [list(d['v'][1])] + d['v'][2:]
+                # the outline closed explicitly (first vertex repeated at the end) / a vertex given twice
             d = retype_desc(d, nt)
             npts = 0 if kind in G.EMPTY_KINDS else (24 if tier == 'quick' else 30)
             case = {'kind': 'shape', 'region': d, 'numtype': nt, 'origin': gen_origin(rng, d),
@@ -1018,18 +1025,21 @@ class Check(PropertyCheck):
         out['origin_unchanged'] = repr(origin) == origin_before
         out['getters'] = self._getters(art, ak, dict(caller, **({'width': caller.get('width', 0.1)} if d['kind'] == 'line' else {})))
         ox, oy = float(case['origin'][0]), float(case['origin'][1])
-        if ak == 'Line2D':
-            out['data'] = [[float(v) for v in art.get_xdata()], [float(v) for v in art.get_ydata()]]
-        elif ak == 'Text':
+        from matplotlib.lines import Line2D
+        from matplotlib.patches import Patch
+        from matplotlib.text import Text
+        # what can be observed depends on the class that actually came back, not on the one expected
+        if isinstance(art, Line2D):
+            out['data'] = [[float(v) for v in np.ravel(art.get_xdata())], [float(v) for v in np.ravel(art.get_ydata())]]
+        elif isinstance(art, Text):
             out['position'] = [float(v) for v in art.get_position()]
             out['text'] = art.get_text()
-        elif d['kind'] == 'line':
-            _, tp = patch_polys(art)
-            v = tp.vertices
-            out['arrow_tail'] = [float(0.5 * (v[0][0] + v[1][0])), float(0.5 * (v[0][1] + v[1][1]))]
-            out['arrow_tip'] = [float(v[4][0]), float(v[4][1])]
-        else:
+        elif isinstance(art, Patch):
             polys, tp = patch_polys(art)
+            if out['cls'] == 'Arrow' and len(tp.vertices) >= 5:
+                v = tp.vertices
+                out['arrow_tail'] = [float(0.5 * (v[0][0] + v[1][0])), float(0.5 * (v[0][1] + v[1][1]))]
+                out['arrow_tip'] = [float(v[4][0]), float(v[4][1])]
             out['n_sub'] = len(polys)
             out['areas'] = [signed_area(p) for p in polys]
             out['attrs'] = self._attrs(art)
@@ -1228,8 +1238,24 @@ class Check(PropertyCheck):
         d = case['region']
         k = d['kind']
         a = real.get('attrs')
+        if k in ('point', 'text', 'line'):
+            return True
         if not a:
-            return
+            return False
+        cls = real.get('cls')
+        combos = {('circle', 'Circle'), ('ellipse', 'Ellipse'), ('ellipse', 'Circle'), ('rectangle', 'Rectangle'),
+                  ('polygon', 'Polygon'), ('regular_polygon', 'Polygon')} | {(x, 'PathPatch') for x in ANNULI}
+        if (k, cls) not in combos or (k, cls) == ('ellipse', 'Circle') and d['w'] != d['h']:
+            return False                      # no attribute-wise comparison for this class: the point set decides
+        try:
+            return self._geometry_checked(case, real, bad, a, cls)
+        except (KeyError, IndexError, TypeError, ValueError) as e:
+            bad('patch_geometry_wrong', f'artist attribute missing or malformed: {type(e).__name__}: {e}')
+            return False
+
+    def _geometry_checked(self, case, real, bad, a, cls):
+        d = case['region']
+        k = d['kind']
         Q = Fraction
         ox, oy = Q(case['origin'][0]), Q(case['origin'][1])
         tol = self._tol(case)
@@ -1249,6 +1275,10 @@ class Check(PropertyCheck):
         if k == 'circle':
             chk('center.x', a['center'][0], Q(d['c'][0]) - ox); chk('center.y', a['center'][1], Q(d['c'][1]) - oy)
             chk('radius', a['radius'], d['r'], rel(d['r']))
+        elif k == 'ellipse' and cls == 'Circle':
+            # a circular ellipse (width == height) drawn as a Circle: the radius must be HALF the width
+            chk('center.x', a['center'][0], Q(d['c'][0]) - ox); chk('center.y', a['center'][1], Q(d['c'][1]) - oy)
+            chk('radius', a['radius'], Q(d['w']) / 2, rel(d['w']))
         elif k == 'ellipse':
             chk('center.x', a['center'][0], Q(d['c'][0]) - ox); chk('center.y', a['center'][1], Q(d['c'][1]) - oy)
             chk('width', a['width'], d['w'], rel(d['w'])); chk('height', a['height'], d['h'], rel(d['h']))
@@ -1293,6 +1323,7 @@ class Check(PropertyCheck):
                         chk(f'path vertex[{i}].x', V_[i, 0], e[0]); chk(f'path vertex[{i}].y', V_[i, 1], e[1])
         if errs:
             bad('patch_geometry_wrong', '; '.join(errs[:4]))
+        return True
 
     def oracle(self, case, real):
         V = []
@@ -1350,8 +1381,10 @@ class Check(PropertyCheck):
             return V
         exp_cls = {'circle': 'Circle', 'ellipse': 'Ellipse', 'rectangle': 'Rectangle', 'polygon': 'Polygon', 'regular_polygon': 'Polygon',
                    'line': 'Arrow', 'point': 'Line2D', 'text': 'Text'}.get(d['kind'], 'PathPatch')
-        if real['cls'] != exp_cls or not real['cls_module'].startswith('matplotlib.'):
-            bad('artist_class', f'{real["cls_module"]}.{real["cls"]} expected {exp_cls}')
+        if not real['cls_module'].startswith('matplotlib.'):
+            bad('artist_class', f'{real["cls_module"]}.{real["cls"]} is not a matplotlib artist')
+        cls_ok = real['cls'] == exp_cls
+        cls_msg = f'as_artist returned a matplotlib {real["cls"]}, the documented class is {exp_cls}' 
         if not real.get('region_unchanged', True):
             bad('region_changed_by_drawing', 'parameters / vertex arrays / meta / visual of the region differ after as_artist/plot')
         if not real.get('origin_unchanged', True):
@@ -1372,8 +1405,13 @@ class Check(PropertyCheck):
             bad('plot_artist_not_in_axes', 'plot() returned an artist that was not added to the given axes')
         tol = self._tol(case)
         near = lambda a, b: abs(a - b) <= tol
-        if kind == 'shape':
-            self._geometry(case, real, bad)
+        comparable = self._geometry(case, real, bad) if kind == 'shape' else True
+        if d['kind'] in ('point', 'text', 'line') and not cls_ok:
+            need = {'point': ['data'], 'text': ['position', 'text'], 'line': ['arrow_tail', 'arrow_tip']}[d['kind']]
+            if any(k not in real for k in need):
+                # nothing to judge a position by: the artist is not of a kind that has one
+                bad('patch_class_unexpected', cls_msg + ' (no position / end points to compare)')
+                return V
         if d['kind'] in ('point', 'text'):
             pos = [real['data'][0][0], real['data'][1][0]] if d['kind'] == 'point' else real['position']
             if d['kind'] == 'point' and (len(real['data'][0]) != 1 or len(real['data'][1]) != 1):
@@ -1403,6 +1441,11 @@ class Check(PropertyCheck):
         elif real['n_sub'] != 1:
             bad('subpaths', f'{real["n_sub"]} sub-paths for a simple shape')
         inc = G.truthy(d.get('include', 'absent'))
+        differs = False
+        compared = 0
+        if 'winding' not in real:
+            bad('patch_class_unexpected', cls_msg + ' (not a patch: no outline to compare with the region)')
+            return V
         for p, wn, (sp, mg), rc in zip(case['pts'], real['winding'], real['spec'], real['contains']):
             if mg < self._band(case, p):
                 continue
@@ -1411,13 +1454,21 @@ class Check(PropertyCheck):
                 continue                     # fill-rule-excepted (self-intersecting outline)
             inside = total != 0
             shape_member = rc if inc else (not rc)
+            compared += 1
             if inside != shape_member:
                 bad('patch_differs_from_contains', f'point={p} (patch coords {[p[0] - ox, p[1] - oy]}) winding={wn} '
-                    f'contains={rc} include={d.get("include")} margin={mg:.3g}', point=p)
+                    f'contains={rc} include={d.get("include")} margin={mg:.3g}; artist class {real["cls"]}', point=p)
+                differs = True
                 break
             if inside != sp:
-                bad('patch_differs_from_spec', f'point={p} winding={wn} spec={sp} margin={mg:.3g}', point=p)
+                bad('patch_differs_from_spec', f'point={p} winding={wn} spec={sp} margin={mg:.3g}; artist class {real["cls"]}', point=p)
+                differs = True
                 break
+        if not cls_ok and (differs or not comparable and compared == 0):
+            # another patch class is a violation only when it does not outline the region (a Circle of the right
+            # radius for a circular ellipse is fine); with no point to judge by, an incomparable class is reported too
+            bad('patch_class_unexpected', cls_msg + (' and its point set differs from the region' if differs else
+                                                     ' and neither attributes nor points could be compared'))
         return V
 
     @staticmethod
